@@ -10,7 +10,7 @@ META = {
         "text": "Kernel-checked: for every layout of a log (message formats 0/1/2, any batch boundaries, compressed batches and wrappers, compaction holes at head/inside/tail, retained empty batches in any number, batches beginning before the start offset), every byte cut and every start offset, one fetch round delivers exactly the completely contained records at or above the start offset, in order, each once, never panics/desynchronises, never jumps over a stored record; under the fetch contract the position strictly advances; iterating against any contract-obeying answers delivers the log from the start offset gap-free and duplicate-free. Reader loop: restart offset after any fault, out-of-range seek; front: SetOffset/version filter. The model is tied to the code by running both on the same generated layouts/cuts/offsets (byte level through Conn.ReadBatch for fetch v2/v5/v10) and scripted Reader runs.",
         "design_ref": "DESIGN.md §7 C02",
     },
-    "level_note": "single_fetch, fetch_progress and iterated_fetch are proved in general (all message formats, any cut/offset/budgets; `Safe` = no v0/v1 message skipped right before a v2 batch, implied by the fetch contract); structural facts of the decoder source are re-extracted by go/ast on every run (Gen/DecoderFacts.lean) and compared by theorems. Trusted: Lean kernel; propext/Classical.choice/Quot.sound; the token abstraction of the byte stream (bytes↔tokens is only sampled: the driver's independent Go encoder + real decoder vs. the model on the same layouts); codecs/bufio/net modelled not verified; deadlines are boolean parameters; Reader-level concurrency (queue, version tags) modelled as an LTS tied by scripted runs only; the fetch contract (first batch whole, KIP-74) is a hypothesis of the progress and iteration theorems.",
+    "level_note": "single_fetch is also stated about bytes for everything the Spec encoder can emit (tokenize_items, codec as parameter); the reader loop is a total LTS with reader_loop_exactly_once over every event sequence, tied by hook traces (rtrace) and front traces (ftrace). single_fetch, fetch_progress and iterated_fetch are proved in general (all message formats, any cut/offset/budgets; `Safe` = no v0/v1 message skipped right before a v2 batch, implied by the fetch contract); structural facts of the decoder source are re-extracted by go/ast on every run (Gen/DecoderFacts.lean) and compared by theorems. Trusted: Lean kernel; propext/Classical.choice/Quot.sound; the token abstraction of the byte stream (bytes↔tokens is only sampled: the driver's independent Go encoder + real decoder vs. the model on the same layouts); codecs/bufio/net modelled not verified; deadlines are boolean parameters; Reader-level concurrency (queue, version tags) modelled as an LTS tied by scripted runs only; the fetch contract (first batch whole, KIP-74) is a hypothesis of the progress and iteration theorems.",
 }
 
 MODULE = "KafkaVerif.Props.C02"
@@ -46,7 +46,7 @@ def run(ctx):
         dis = ctx.correspond(lines, orc, "conn.go ReadBatch / batch.go / message_reader.go / reader.go ↔ Model/MessageSetReader.lean, Model/Batch.lean, Model/ReaderLoop.lean",
                              nontrivial=lambda op, impl: " L=-" not in op)
     ctx.coverage["rule"] = (
-        "fetchx: the fetch generator read after the batch's adjusted deadline has passed (58 cases quick / 318 thorough; out must be RequestTimedOut); fetchts: stored timestamp 0 (D21); fetch: logs of 1..6 original batches in format 2 / 1 / 0 / mixed(1 then 2), compaction modes keep-all, random holes, head holes, tail holes, "
+        "tok: the driver's real bytes (uncompressed layouts, random cut) through the Lean byte tokenizer; rtrace / ftrace: RL.* / RF.* hook traces of every Reader scenario replayed through the loop LTS / checked against the front model; fetchx: the fetch generator read after the batch's adjusted deadline has passed (58 cases quick / 318 thorough; out must be RequestTimedOut); fetchts: stored timestamp 0 (D21); fetch: logs of 1..6 original batches in format 2 / 1 / 0 / mixed(1 then 2), compaction modes keep-all, random holes, head holes, tail holes, "
         "empty (retained bare header, sometimes dropped), whole-batch gaps, codecs none/gzip/snappy/lz4/zstd (v2) and gzip/snappy/lz4 wrappers (v0/v1), start offset anywhere "
         "in the log incl. the log end, served from the batch containing it (3/4) or from the log start, cut: none / uniform byte / within the last 70 bytes; fetch v2/v5/v10 round robin; "
         "iter: the same logs served under the fetch contract with 1..3 cycling byte budgets from {1,80,150,300,1000,2^20}+rand; "
